@@ -256,8 +256,21 @@ def run(ctx: RunCtx) -> None:
                 obr = Observer()
                 pr = _HttpProxy(svc.protocol, netr, "", obr.on_log)
                 obr.begin(call)
+                # two client-side ways to continue from a token: resume_stream() (no init), or a freshly initialised
+                # session of the same call repositioned with seek_to_token() - that session holds its OWN call token and
+                # must adopt the one inside the blob
+                via_seek = bool(ch.choose(2, f"resume{k}.api"))
                 try:
-                    rs = pr.resume_stream(spec.name, tok)
+                    rs = None
+                    if via_seek:
+                        try:
+                            rs = getattr(pr, spec.name)(**call.kwargs)
+                            rs.seek_to_token(tok)
+                            ch.probe("resume-api:init+seek_to_token")
+                        except RpcError:
+                            rs = None  # this call's init itself fails: only resume_stream can continue it
+                    if rs is None:
+                        rs = pr.resume_stream(spec.name, tok)
                     rem = iterate(rs)
                 except RpcError as e:
                     rem = [_err_ev(e)]
